@@ -44,6 +44,12 @@ def run(ctx):
                 src = pr["src"]
                 if ndef:
                     src += "*=0x%06x\n" % ({"low_rom": 0x1F8000, "low_rom_2": 0x9F8000, "high_rom": 0xCF0000}[rom]) + "".join(f".dw {k}\nlda.w #{k} + 1\n" for k, _ in defines)
+                if ndef == 0 and rep_i == 0 and fmt == "ips":
+                    # one contiguous block longer than two IPS records (a large included binary)
+                    big = bytes(range(256)) * 0x200 + bytes(range(rng.randrange(1, 40)))
+                    impl.write_files(run_.tmp, None, {"c12big.bin": big})
+                    src += "*=0x%06x\n.incbin 'c12big.bin'\n.db 0x5a\n" % ({"low_rom": 0x208000, "low_rom_2": 0xA08000, "high_rom": 0xD00000}[rom])
+                    s.count("with-3-record-block")
                 base = impl.assemble(src, rom, defines=defines, cwd=run_.tmp)
                 if base["status"] != "ok":
                     s.count("base-rejected")
